@@ -1,5 +1,6 @@
 # C08 Collective calls match on all ranks: no deadlock, errors stay local.
 import C05, C11, C16, C06
+from engine import Job
 LEVEL = 'other'
 TRUSTED = ['MPI is deadlock-free when all ranks issue the same sequence of collectives']
 ASSUMPTIONS = ['sufficient condition checked per function: the sequence of collective MPI calls does not depend on rank-local outcomes (errors, zero-length requests)']
@@ -10,4 +11,8 @@ def jobs(tier, ws):
     js += [j for j in C11.jobs(tier, ws, prop='C08') if 'read_write' in j.name]
     js += [j for j in C16.jobs(tier, ws, prop='C08')][:3]
     js += [j for j in C06.jobs(tier, ws, prop='C08') if 'move_file_block' in j.name][:2]
+    js.append(Job('C08/check_consistency_put', 'C08', ['src/dispatchers/attr_getput.m4', 'src/drivers/common/error_mpi2nc.c'], 'C08_consistency.c',
+                  enforce='attr_getput.c:check_consistency_put', extra_src=['stubs/mpi_model.c'], canaries=['consistent_with_values', 'consistent_empty', 'length_disagreement', 'early_agreed_error'],
+                  unwind=26, kind='bounded', timeout=600, bound='names <= 3 characters, attributes <= 2 elements; rank, process count, local arguments symbolic',
+                  assumptions=['MPI_Bcast of a scalar delivers the agreed (root) value; a broadcast character buffer is NUL-terminated']))
     return js
